@@ -121,7 +121,12 @@ def norm_pattern(pattern: AnyStr, normalize: bool | None, is_raw_chars: bool) ->
                     f"Could not convert character value {m.group(3)!r} at position {m.start(3):d}"
                 ) from e
         elif is_raw_chars and not is_bytes and m.group(5):
-            char = unicodedata.lookup(m.group(5)[3:-1])
+            try:
+                char = unicodedata.lookup(m.group(5)[3:-1])
+            except UnicodeEncodeError as e:
+                raise SyntaxError(
+                    f"Could not convert character value {m.group(5)!r} at position {m.start(5):d}"
+                ) from e
         elif not is_raw_chars or m.group(5 if is_bytes else 6):
             char = m.group(0)
         else:
